@@ -446,7 +446,7 @@ func (c *caseCtx) check(p *pass) {
 		}
 	}
 	// what the completed frames wrote is there, what the failed ones wrote is not
-	if tc.started && !failed && tc.survivor != nil {
+	if tc.started && !failed && tc.survivor != nil && !tc.desync {
 		dead := map[common.AddressBytes]bool{}
 		for _, sd := range tc.survivor.sds {
 			dead[sd.self.Bytes20()] = true
@@ -515,6 +515,9 @@ func (c *caseCtx) check(p *pass) {
 		modelKnown = false // no frame: judged below as one top-level operation
 	}
 	out := p.receipt.OutboundEtxs
+	if tc.desync {
+		simkit.Global.Inc("probe.model_desync_unreverted_failure")
+	}
 	if modelKnown {
 		bad := ""
 		if len(out) != len(model) {
@@ -528,7 +531,7 @@ func (c *caseCtx) check(p *pass) {
 				}
 			}
 		}
-		if bad != "" {
+		if bad != "" && !tc.desync {
 			c.fail("C05", "etx-list-equals-model", fmt.Sprintf("%s status=%d", label, p.receipt.Status), bad)
 		}
 	} else {
@@ -573,6 +576,17 @@ func (c *caseCtx) check(p *pass) {
 	_ = txInput
 
 	// ---------------- C02: nothing is created
+	if failed {
+		for _, a := range w.known {
+			if a.Equal(payer) {
+				continue
+			}
+			ia := mustInternal(a)
+			if before, after := c.pre.GetBalance(ia), p.st.GetBalance(ia); before.Cmp(after) != 0 {
+				c.fail("C02", "failed-tx-balance", label, fmt.Sprintf("balance of %x was %v before the failed transaction and is %v after it", a.Bytes(), before, after))
+			}
+		}
+	}
 	gasLimitBig := new(big.Int).SetUint64(p.gasLimit)
 	minCharge, maxCharge := new(big.Int).Mul(gasUsed, price), new(big.Int).Mul(gasLimitBig, price)
 	debits, carried, refunds, burns := new(big.Int), new(big.Int), new(big.Int), new(big.Int).Set(tc.burnAtEnd)
@@ -619,6 +633,9 @@ func (c *caseCtx) check(p *pass) {
 	if burns.Sign() > 0 {
 		simkit.Global.Inc("probe.documented_burn")
 	}
+	if tc.desync {
+		upper, lower = sumAfter, sumAfter // no verdict on the sums
+	}
 	if sumAfter.Cmp(upper) > 0 {
 		conds := map[string]bool{}
 		for _, m := range model {
@@ -639,17 +656,6 @@ func (c *caseCtx) check(p *pass) {
 		c.fail("C02", "value-destroyed", fmt.Sprintf("%s status=%d", label, p.receipt.Status),
 			fmt.Sprintf("sum of balances before %v, after %v: less than before - charge(%v) - outbound(%v) + refunds(%v) + inbound(%v) - documented burns(%v) = %v (missing %v)",
 				w.sumPre, sumAfter, lowCharge, debits, refunds, inboundMin, burns, lower, new(big.Int).Sub(lower, sumAfter)))
-	}
-	if failed {
-		for _, a := range w.known {
-			if a.Equal(payer) {
-				continue
-			}
-			ia := mustInternal(a)
-			if before, after := c.pre.GetBalance(ia), p.st.GetBalance(ia); before.Cmp(after) != 0 {
-				c.fail("C02", "failed-tx-balance", label, fmt.Sprintf("balance of %x was %v before the failed transaction and is %v after it", a.Bytes(), before, after))
-			}
-		}
 	}
 	// the payer's gas charge
 	if c.txKind != "etx-in" && !(c.txKind == "suicide" && !failed) {
